@@ -142,6 +142,34 @@ theorem merge_keeps_first (loc remote : List Version) (h : loc ≠ []) :
 
 /-! ## validation -/
 
+/-! ## `identity.MergeAll`: an invalid remote identity never moves the local one -/
+
+/-- `mergeAll_invalid_untouched`: a remote identity that does not validate (decreasing or dropped
+clocks, no name and login, unsafe characters, …) is refused and the local history is left as it is —
+also when it extends the local history -/
+theorem mergeAll_invalid_untouched (loc remote : List Version) (h : validate remote = false) :
+    mergeAll loc remote = .invalidRemote loc ∧ (mergeAll loc remote).chain = loc := by
+  simp [mergeAll, h, MergeAllRes.chain]
+
+/-- `mergeAll_updated_valid`: whenever the merge is reported as an update, the local history has
+become the remote one, which is valid -/
+theorem mergeAll_updated_valid (loc s : List Version) (hs : s ≠ []) (vs : List Version) (ref : String)
+    (h : mergeAll loc (loc ++ s) = .merged (.updated vs ref)) :
+    vs = loc ++ s ∧ validate vs = true := by
+  unfold mergeAll at h
+  split at h
+  · rename_i hv
+    rw [idMerge_extend loc s hs] at h
+    simp only [MergeAllRes.merged.injEq, MergeRes.updated.injEq] at h
+    exact ⟨h.1.symm, h.1 ▸ hv⟩
+  · cases h
+
+/-- `mergeAll_valid_is_merge`: for a valid remote identity MergeAll is Identity.Merge -/
+theorem mergeAll_valid_is_merge (loc remote : List Version) (h : validate remote = true) :
+    mergeAll loc remote = .merged (merge loc remote) := by
+  simp [mergeAll, h]
+
+
 /-- `validate_spec`: an identity is valid iff it has a version, every version has valid fields,
 and along the chain no clock decreases or disappears. -/
 theorem validate_iff (vs : List Version) :
@@ -195,5 +223,9 @@ example : merge [v "a" 1, v "b" 2, v "c" 3] [v "a" 1, v "b" 2] = .nothing [v "a"
 example : merge [v "a" 1, v "b" 2] [v "a" 1, v "x" 2, v "y" 3] = .nonFastForward [v "a" 1, v "b" 2] := by decide
 example : validate [v "a" 1, v "b" 2] = true ∧ validate [v "a" 2, v "b" 1] = false ∧ validate [] = false ∧
     validate [v "a" 1, { commit := "b", times := [] }] = false := by decide
+
+example : mergeAll [v "a" 1, v "b" 2] [v "a" 1, v "b" 2, v "c" 1] = .invalidRemote [v "a" 1, v "b" 2] := by decide
+example : mergeAll [v "a" 1, v "b" 2] [v "a" 1, v "b" 2, v "c" 3]
+    = .merged (.updated [v "a" 1, v "b" 2, v "c" 3] "c") := by decide
 
 end GitBugModel.Props.C09
